@@ -1,12 +1,14 @@
 #!/bin/bash
-# usage: mut_test.sh <patch.diff> <check id> [extra args...]  -- applies patch to /repo, runs check, reverts
+# usage: mut_test.sh <patch.diff> <check id> [extra args...]
+# applies the patch to a private copy of /repo (so that concurrently running checks are not
+# disturbed), runs the check against it via VERIF_REPO, removes the copy.
 set -u
 PATCH=$1; shift
 ID=$1; shift
-cd /repo || exit 9
-if ! git diff --quiet; then echo "repo dirty, abort"; exit 9; fi
-git apply "$PATCH" || { echo "patch does not apply"; exit 9; }
-trap 'git -C /repo checkout -- . ' EXIT
+D=$(mktemp -d /tmp/mut/repo_XXXXXX)
+trap 'rm -rf "$D"' EXIT
+rsync -a --exclude target --exclude .git /repo/ "$D/"
+( cd "$D" && git init -q . 2>/dev/null && git apply "$PATCH" ) || { echo "patch does not apply"; exit 9; }
 cd /verif
-VERIF_NO_EVIDENCE=1 bin/check "$ID" "$@" 2>&1 | grep -E "VIOLATION|SUMMARY|KNOWN|MACHINERY|INCONCLUSIVE" | cut -c1-260
+VERIF_REPO="$D" VERIF_EVIDENCE_DIR=/tmp/mut/ev timeout ${MUT_TIMEOUT:-1500} bin/check "$ID" "$@" 2>&1 | grep -E "VIOLATION|SUMMARY|KNOWN|MACHINERY|INCONCLUSIVE" | cut -c1-260
 echo "exit=${PIPESTATUS[0]}"
